@@ -139,7 +139,9 @@ _HINTS = None
 
 
 def hint_key(ob):
-    return ob.name + '|' + '/'.join(ob.trail)
+    # line numbers are dropped so that hints survive edits that only move code
+    import re
+    return re.sub(r'@?L\d+', '', ob.name) + '|' + re.sub(r'L\d+', 'L', '/'.join(ob.trail))
 
 
 def load_hints():
